@@ -143,36 +143,36 @@ type Config struct {
 
 // Sched is the scheduler of one execution.
 type Sched struct {
-	threads   []*thread
-	cur       *thread
-	last      *thread
-	runq      []*thread
-	prefix    []int
-	step      int
-	nEnabled  []int
-	preempt   [][]bool // per choice point, per alternative: is it a preemption
-	chosen    []int
-	aborting  bool
-	finished  chan struct{}
-	visited   map[uint64]struct{}
-	noPrune   bool
-	pruned    bool
-	deadlock  bool
-	crash     []string
-	mainDone  bool
-	locs      map[locKey]*locState
-	races     []string
-	raceKeys  map[string]bool
-	leaks     []string
-	clock     int64
-	trans     int
-	afterMain int
-	objs      []*core
-	live      sync.WaitGroup
-	diverged  bool
-	newStates int
-	trace     []string
-	wantTrace bool
+	threads    []*thread
+	cur        *thread
+	last       *thread
+	runq       []*thread
+	prefix     []int
+	step       int
+	nEnabled   []int
+	preempt    [][]bool // per choice point, per alternative: is it a preemption
+	chosen     []int
+	aborting   bool
+	finished   chan struct{}
+	visited    map[uint64]struct{}
+	noPrune    bool
+	pruned     bool
+	deadlock   bool
+	crash      []string
+	mainDone   bool
+	locs       map[locKey]*locState
+	races      []string
+	raceKeys   map[string]bool
+	leaks      []string
+	clock      int64
+	trans      int
+	afterMain  int
+	objs       []*core
+	live       sync.WaitGroup
+	diverged   bool
+	newStates  int
+	trace      []string
+	wantTrace  bool
 	wantStacks bool
 }
 
@@ -1027,7 +1027,7 @@ func accessSlot(obj any, slot int, write bool, skip int) {
 		if s.raceKeys == nil {
 			s.raceKeys = map[string]bool{}
 		}
-		if !s.raceKeys[key] && len(s.races) < 4 {
+		if !s.raceKeys[key] && len(s.races) < 16 {
 			s.raceKeys[key] = true
 			s.races = append(s.races, fmt.Sprintf("%s on %T slot %d: goroutine %s {%s}  unordered with earlier access by goroutine %s {%s}", kind, obj, slot, t.path, st, prev.path, pst))
 		}
